@@ -441,3 +441,131 @@ fn plant_motif(sc: &mut Scenario, feat: u16, mv: u8) {
         }
     }
 }
+
+/// Mutational generation: a scenario of the regression corpus (the shrunk scenarios of earlier
+/// findings and of caught seeded changes, /verif/replays) with 1-4 small generated changes.
+/// Defects cluster: the neighbourhood of a scenario that once exposed one is a high-yield region.
+/// Returns None when this byte string asks for ordinary generation.
+pub fn mutate_from_corpus(data: &[u8], prof: &Profile, corpus: &[Scenario], p_corpus: u16) -> Option<Scenario> {
+    if corpus.is_empty() || data.len() < 8 {
+        return None;
+    }
+    // the last byte decides, so that ordinary decoding of the same string is unaffected
+    let sel = data[data.len() - 1];
+    if (255 - sel as u16) >= p_corpus {
+        return None;
+    }
+    let mut src = Src::new(data);
+    let mut sc = corpus[src.below(corpus.len().min(256))].clone();
+    let allow_flaky = prof.force_off & F_FLAKY == 0;
+    let nm = 1 + src.below(4);
+    for _ in 0..nm {
+        let n = sc.slots.len();
+        if n == 0 || sc.steps.is_empty() {
+            break;
+        }
+        let (op, a, b, c) = (src.u8(), src.u8(), src.u8(), src.u8());
+        let slot = (a as usize * n) >> 8;
+        let step = (a as usize * sc.steps.len()) >> 8;
+        match op % 10 {
+            0 => {
+                if slot > 0 {
+                    let up = (b as usize * slot) >> 8;
+                    let deps = &mut sc.init[slot].deps;
+                    if let Some(pos) = deps.iter().position(|d| d.0 == up) {
+                        deps.remove(pos);
+                    } else {
+                        deps.push((up, 1 << (c % 3)));
+                        deps.sort();
+                    }
+                }
+            }
+            1 => {
+                sc.slots[slot].kind = match (sc.slots[slot].kind, b % 2) {
+                    (Kind::Always, 0) => Kind::Output,
+                    (Kind::Always, _) => Kind::Ephemeral,
+                    (Kind::Output, 0) => Kind::Ephemeral,
+                    (Kind::Output, _) => Kind::Always,
+                    (Kind::Ephemeral, 0) => Kind::Output,
+                    (Kind::Ephemeral, _) => Kind::Always,
+                };
+                if sc.slots[slot].kind != Kind::Ephemeral {
+                    sc.slots[slot].flaky = false;
+                }
+            }
+            2 => {
+                let sl = (b as usize * n) >> 8;
+                if sl < 32 {
+                    sc.steps[step].plan.fail ^= 1 << sl;
+                }
+            }
+            3 => {
+                let plan = &mut sc.steps[step].plan;
+                plan.abort = if plan.abort.is_some() { None } else { Some((((b as usize * (2 * n + 2)) >> 8) as u32, c >= 128)) };
+            }
+            4 => {
+                let sch = decode_sched(&mut src, n, 0xffff);
+                sc.steps[step].plan.sched = sch;
+            }
+            5 => {
+                let sl = (b as usize * n) >> 8;
+                let e = match c % 6 {
+                    0 => Some(Edit::ToggleJob(sl)),
+                    1 | 2 => {
+                        if sl > 0 {
+                            Some(Edit::ToggleDep { down: sl, up: (c as usize * sl) >> 8, mask: 1 << (c % 3) })
+                        } else {
+                            None
+                        }
+                    }
+                    3 => (0..n).find(|i| sc.slots[*i].kind == Kind::Always).map(Edit::Bump),
+                    4 => Some(Edit::Delete(sl, 1 + (c / 6) % 7)),
+                    _ => Some(Edit::TogglePart(sl, (c / 6) % 3)),
+                };
+                if let (Some(e), true) = (e, step > 0) {
+                    sc.steps[step].edits.push(e);
+                }
+            }
+            6 => {
+                if sc.steps.len() < 8 {
+                    let mut st = sc.steps[sc.steps.len() - 1].clone();
+                    st.edits.clear();
+                    st.plan.fail = 0;
+                    st.plan.abort = None;
+                    sc.steps.push(st);
+                }
+            }
+            7 => match b % 4 {
+                0 => sc.cfg.stamps = !sc.cfg.stamps,
+                1 => {
+                    sc.cfg.scope = if sc.cfg.scope == Scope::Whole { Scope::Consumed } else { Scope::Whole };
+                    if sc.cfg.scope == Scope::Consumed {
+                        sc.cfg.anon = false;
+                    }
+                }
+                2 => sc.cfg.names = if sc.cfg.names == Names::JobIds { Names::Outputs } else { Names::JobIds },
+                _ => {
+                    sc.cfg.anon = !sc.cfg.anon;
+                    if sc.cfg.anon {
+                        sc.cfg.scope = Scope::Whole;
+                    }
+                }
+            },
+            8 => sc.slots[slot].coarse = !sc.slots[slot].coarse,
+            _ => {
+                if allow_flaky && sc.slots[slot].kind == Kind::Ephemeral && b >= 128 {
+                    sc.slots[slot].flaky = !sc.slots[slot].flaky;
+                } else {
+                    sc.init[slot].active = !sc.init[slot].active;
+                }
+            }
+        }
+    }
+    if !allow_flaky {
+        for sl in sc.slots.iter_mut() {
+            sl.flaky = false;
+        }
+    }
+    sc.motif = 100;
+    Some(sc)
+}
